@@ -178,6 +178,13 @@ fn case(rng: &mut Rng, rec: &mut Rec) {
     let depth = rng.usize_in(0, 3);
     let method = if depth == 0 { *rng.pick(&["GET", "POST", "PUT", "HEAD", "DELETE"]) } else { *rng.pick(&["GET", "POST", "HEAD", "DELETE", "PUT"]) };
     let mut cfg = ReqCfg::new(method, &clean_start_uri(rng));
+    let orig_has_host = rng.chance(1, 4);
+    if orig_has_host {
+        // the Host of the first request spelled out: it stays as long as the chain stays on that host, so a
+        // Host may only be added where the chain has left it
+        cfg.orig.push(("host".into(), host_of(&split_uri(&cfg.uri)).into_bytes()));
+        rec.cov("original-with-explicit-host");
+    }
     cfg.orig.push(("x-orig".into(), b"o-1".to_vec()));
     if rng.chance(1, 4) {
         cfg.orig.push(("x-null".into(), b"o-null".to_vec()));
@@ -215,7 +222,11 @@ fn case(rng: &mut Rng, rec: &mut Rec) {
         // after a redirect)
         let will_despite = hop_i == depth && !body_method_now && !inherited_cl && !orig_chunked && rng.chance(1, 5);
         let may_frame = (body_method_now && !inherited_cl) || will_despite;
-        let added = match add_headers(&mut flow, rng, hop_i, false, may_frame, rec) {
+        let inherited_host = orig_has_host && host_of(&eff.uri) == host_of(&original);
+        if orig_has_host && !inherited_host {
+            rec.cov("explicit-host-left-behind");
+        }
+        let added = match add_headers(&mut flow, rng, hop_i, inherited_host, may_frame, rec) {
             Some(a) => a,
             None => return,
         };
